@@ -161,3 +161,17 @@ pub fn opt_bytes_item(b: &Option<Vec<u8>>) -> Item {
 pub fn same<T: PartialEq + std::fmt::Debug>(a: &T, b: &T) -> bool {
     a == b || format!("{:?}", a) == format!("{:?}", b)
 }
+
+/// Item equality modulo the order of map entries (the order of a map's entries is not part of
+/// the CBOR data model).
+pub fn eq_mod_map_order(a: &Item, b: &Item) -> bool {
+    match (a, b) {
+        (Item::Map(x), Item::Map(y)) => {
+            x.len() == y.len()
+                && x.iter().all(|(k, v)| y.iter().filter(|(k2, v2)| k == k2 && eq_mod_map_order(v, v2)).count() == x.iter().filter(|(k3, v3)| k == k3 && eq_mod_map_order(v, v3)).count())
+        }
+        (Item::Array(x), Item::Array(y)) => x.len() == y.len() && x.iter().zip(y.iter()).all(|(p, q)| eq_mod_map_order(p, q)),
+        (Item::Tag(t, x), Item::Tag(u, y)) => t == u && eq_mod_map_order(x, y),
+        _ => a == b,
+    }
+}
